@@ -1010,9 +1010,12 @@ def run_cases(ctx: core.Ctx, cases: list[dict[str, Any]], stream: str) -> None:
     ctx.stream(stream, len(cases), dis)
 
 
-def witness(c: dict[str, Any]) -> dict[str, Any]:
-    return {"kind": "case", "d": c["d"], "style": c["style"], "doc": to_jsonable(c["doc"]), "files": c["files"],
-            "finding_key": c.get("finding_key"), "expect_valid": c.get("expect_valid", True)}
+def witness(c: dict[str, Any], with_history: bool = True) -> dict[str, Any]:
+    w = {"kind": "case", "d": c["d"], "style": c["style"], "doc": to_jsonable(c["doc"]), "files": c["files"],
+         "finding_key": c.get("finding_key"), "expect_valid": c.get("expect_valid", True)}
+    if with_history and c.get("history"):
+        w["history"] = c["history"]      # the builds made just before in the same process (call-history stream)
+    return w
 
 
 def cases_of(d: dict[str, Any], pair: int) -> list[dict[str, Any]]:
@@ -1042,6 +1045,57 @@ def gen_cases(ctx: core.Ctx, n_pyprojects: int) -> list[dict[str, Any]]:
             cs = [c for c in cs if c["style"] == "legacy"]
         pair += 1
         cases += cs
+    return cases
+
+
+def _recase(rng: Any, t: str) -> str:
+    alts = [x for x in (t.upper(), t.lower(), t.swapcase(), t.title()) if x != t]
+    return rng.choice(alts) if alts else t
+
+
+def case_variants(rng: Any, d: dict[str, Any], n: int = 3) -> list[dict[str, Any]]:
+    """descriptions that differ from `d` in the letter case of ONE free-text field (licence text, description, a keyword,
+    a person's name, a URL label): values a table keyed by a normalised spelling would confuse"""
+    import copy
+    out = []
+    for _ in range(n):
+        v = copy.deepcopy(d)
+        k = rng.random()
+        if v.get("license") and v["license"].get("text") and k < 0.5:
+            v["license"]["text"] = _recase(rng, v["license"]["text"])
+        elif v.get("keywords") and k < 0.65:
+            i = rng.randrange(len(v["keywords"]))
+            v["keywords"][i] = _recase(rng, v["keywords"][i])
+        elif v.get("authors") and k < 0.8 and isinstance(v["authors"][0], dict) and v["authors"][0].get("name"):
+            v["authors"][0]["name"] = _recase(rng, v["authors"][0]["name"])
+        elif v.get("description"):
+            v["description"] = _recase(rng, v["description"])
+        elif v.get("license") and v["license"].get("text"):
+            v["license"]["text"] = _recase(rng, v["license"]["text"])
+        else:
+            continue
+        if v != d:
+            out.append(v)
+    return out
+
+
+def gen_history_cases(ctx: core.Ctx, n_pyprojects: int) -> list[dict[str, Any]]:
+    """groups built one after the other in this process: a description, then variants that differ in the letter case of one
+    free-text field.  Each case carries the (up to four) builds made just before it, so that a replay repeats them."""
+    cases: list[dict[str, Any]] = []
+    pair = 10 ** 6
+    while len(cases) < n_pyprojects:
+        d = gen_description(ctx.rng)
+        if ctx.rng.random() < 0.6 and not (d.get("license") and d["license"]["kind"] == "text"):
+            d["license"] = {"kind": "text", "text": gen_multiline(ctx.rng)}
+        prev: list[dict[str, Any]] = []
+        for dv in [d, *case_variants(ctx.rng, d)]:
+            cs = cases_of(dv, pair)
+            pair += 1
+            for c in cs:
+                c["history"] = [witness(p, with_history=False) for p in prev[-4:]]
+            prev += cs
+            cases += cs
     return cases
 
 
@@ -1390,6 +1444,7 @@ def correspondence(ctx: core.Ctx) -> None:
             cases = gen_cases(ctx, min(chunk, total - done))
             run_cases(ctx, cases, "pyproject")
             done += len(cases)
+        run_cases(ctx, gen_history_cases(ctx, ctx.budget(120, 3000)), "history")
         run_cases(ctx, finding_cases(), "findings")
         fixed = fixed_malformed()
         run_malformed(ctx, fixed, "malformed-fixed")
@@ -1427,8 +1482,10 @@ def replay(ctx: core.Ctx, payload: dict[str, Any]) -> bool:
         elif w.get("kind") == "case":
             c = {"d": w["d"], "style": w["style"], "doc": from_jsonable(w["doc"]), "files": w["files"], "pair": 0,
                  "finding_key": w.get("finding_key"), "expect_valid": w.get("expect_valid", True)}
+            hist = [{"d": h["d"], "style": h["style"], "doc": from_jsonable(h["doc"]), "files": h["files"], "pair": -1 - i}
+                    for i, h in enumerate(w.get("history", []))]
             if c["expect_valid"]:
-                run_cases(ctx, [c], "replay")
+                run_cases(ctx, [*hist, c], "replay")
             else:
                 run_malformed(ctx, [c], "replay")
         elif w.get("kind") == "finding":
